@@ -9,6 +9,7 @@ reads included) and - where it says so - every ending of the stream; no bound on
 -/
 import ConfModel.Lemmas.Delimited
 import ConfModel.Generated.C09Facts
+import ConfModel.Lemmas.SyncPipe
 namespace ConfModel.Props.C09
 open ConfModel.Delimited ConfModel.Framing
 
@@ -217,6 +218,15 @@ theorem site_limits_from_source :
     Generated.C09Facts.maxServerResponseSize = Site.limit .server ∧
     Generated.C09Facts.maxClientResponseSize = Site.limit .client := by decide
 
+/-- **The time-out periods in the source are the named constants of the sites.**  The time-out
+argument of each of the two calls is literally `serverResponseTimeout` / `clientResponseTimeout`
+(not an expression evaluated when a read begins), and their values are 10 s and 20 s. -/
+theorem site_timeouts_from_source :
+    Generated.C09Facts.serverRunnerTimeouts = ["serverResponseTimeout"] ∧
+    Generated.C09Facts.clientRunnerTimeouts = ["clientResponseTimeout"] ∧
+    Generated.C09Facts.serverResponseTimeoutMs = Site.timeoutMs .server ∧
+    Generated.C09Facts.clientResponseTimeoutMs = Site.timeoutMs .client := by decide
+
 /-- **Oversize at each call site**: `oversize_rejected_early` with the limit of the site — a
 server (client) that announces more than 1 MB (16 MB) after any number of good messages is
 reported as too large after exactly the four prefix bytes, and no buffer above the site's limit
@@ -269,6 +279,75 @@ example : (1048576 : Nat) < 1048577 ∧ (1048577 : Nat) ≤ 16777216 := by decid
 example : (readAt .server ⟨putBe32 2097152 ++ [0, 0], [], .eofSeparate⟩).res = .tooLarge 2097152 ∧
     (readAt .client ⟨putBe32 2097152 ++ [0, 0], [], .eofSeparate⟩).res = .unexpectedEOF := by decide
 
+
+/-! ### over a pipe with write boundaries: what comes out, and when
+
+`makeProcess` puts a synchronous `io.Pipe` between the runner and every peer.  `SyncPipe.readAll`
+is the reading loop over such a pipe (`Model/SyncPipe.lean`): the peer's writes are a list of chunks
+(empty ones included), `mets` records for every result how many of the peer's writes the reader had
+met when it returned it.  `guard = true` is `read(n)` as repaired in 715ef44 (no `Read` for `n = 0`),
+`emptyBlocks = true` a pipe on which an empty `Read` waits for the peer's next write (`io.Pipe`). -/
+
+/-- **pipe_delivery.**  For every message sequence and every way the peer cuts its byte stream
+into writes (any number of writes, empty ones too), whether the pipe blocks on empty reads or not
+— the repaired reader — and for the reader before the repair on pipes that answer empty reads
+at once: exactly the messages come out, in order; message i is returned when the reader has met
+`needed writes (end of frame i)` writes, i.e. as soon as its last byte has been written and
+without needing any later write; then a closed pipe gives end of input and a silent one the
+time-out with "nothing received" (`timeout false 0 4`). -/
+theorem pipe_delivery (guard emptyBlocks : Bool) (h : guard = true ∨ emptyBlocks = false) (max : Nat)
+    (msgs : List Bytes) (writes : List Bytes) (e : SyncPipe.End)
+    (hw : writes.flatten = msgs.flatMap encode) (hf : Fits max msgs) :
+    (SyncPipe.readAll guard max (msgs.length + 1) (SyncPipe.Pipe.fresh writes e emptyBlocks)).results
+      = msgs.map Res.msg ++ [SyncPipe.endRes e] ∧
+    (SyncPipe.readAll guard max (msgs.length + 1) (SyncPipe.Pipe.fresh writes e emptyBlocks)).mets.take msgs.length
+      = (SyncPipe.frameEnds 0 msgs).map (SyncPipe.needed writes) := by
+  obtain ⟨h1, h2⟩ := SyncPipe.readAll_msgs guard max msgs (SyncPipe.Pipe.fresh writes e emptyBlocks) h
+    (by simpa [SyncPipe.Pipe.data, SyncPipe.Pipe.fresh] using hw) hf
+  refine ⟨h1, ?_⟩
+  rw [h2]
+  apply List.map_congr_left
+  intro o _
+  exact SyncPipe.adv_fresh_met writes e emptyBlocks o
+
+/-- the repaired reader (the code as it is), on any pipe: no hypothesis left -/
+theorem pipe_delivery_repaired (emptyBlocks : Bool) (max : Nat) (msgs : List Bytes) (writes : List Bytes)
+    (e : SyncPipe.End) (hw : writes.flatten = msgs.flatMap encode) (hf : Fits max msgs) :
+    (SyncPipe.readAll true max (msgs.length + 1) (SyncPipe.Pipe.fresh writes e emptyBlocks)).results
+      = msgs.map Res.msg ++ [SyncPipe.endRes e] ∧
+    (SyncPipe.readAll true max (msgs.length + 1) (SyncPipe.Pipe.fresh writes e emptyBlocks)).mets.take msgs.length
+      = (SyncPipe.frameEnds 0 msgs).map (SyncPipe.needed writes) :=
+  pipe_delivery true emptyBlocks (Or.inl rfl) max msgs writes e hw hf
+
+/-- three messages, the middle one empty, written as prefix / body / prefix / prefix+body: the
+empty message is returned after the third write, not the fourth -/
+example : ([[0, 0, 0, 1], [7], [0, 0, 0, 0], [0, 0, 0, 2, 8, 9]] : List Bytes).flatten = [[7], [], [8, 9]].flatMap encode ∧
+    (SyncPipe.readAll true 9 4 (SyncPipe.Pipe.fresh [[0, 0, 0, 1], [7], [0, 0, 0, 0], [0, 0, 0, 2, 8, 9]] .stall true)).results
+      = [.msg [7], .msg [], .msg [8, 9], .timeout false 0 4] ∧
+    (SyncPipe.readAll true 9 4 (SyncPipe.Pipe.fresh [[0, 0, 0, 1], [7], [0, 0, 0, 0], [0, 0, 0, 2, 8, 9]] .stall true)).mets
+      = [2, 3, 4, 4] ∧
+    (SyncPipe.frameEnds 0 [[7], [], [8, 9]]).map (SyncPipe.needed [[0, 0, 0, 1], [7], [0, 0, 0, 0], [0, 0, 0, 2, 8, 9]]) = [2, 3, 4] := by
+  decide
+
+/-- **F29 (finding, repaired in 715ef44): the reader before the repair on a synchronous pipe.**
+Full statement that did NOT hold: `pipe_delivery` with `guard = false`, `emptyBlocks = true`.
+What held is `pipe_delivery false false` (pipes that answer an empty read at once); on a synchronous
+pipe a zero-length message was only returned together with the peer's next write or close, and if
+the peer stayed silent the progress triple at the time-out was (true, 0, 0), which the time-out
+branch takes for "the read is complete" and then waits for the reading goroutine without limit.
+Witnesses (the negation of the full statement on concrete inputs): -/
+theorem f29_unrepaired_witness :
+    -- four zero bytes, then silence: neither the empty message nor a time-out error
+    (SyncPipe.readAll false 8 2 (SyncPipe.Pipe.fresh [[0, 0, 0, 0]] .stall true)).results = [.timeout true 0 0] ∧
+    timeoutReport true 0 0 = .complete ∧
+    -- … where the repaired reader returns the message and then the time-out
+    (SyncPipe.readAll true 8 2 (SyncPipe.Pipe.fresh [[0, 0, 0, 0]] .stall true)).results = [.msg [], .timeout false 0 4] ∧
+    -- an empty message followed by another one: returned only when the second write is met
+    (SyncPipe.readAll false 8 3 (SyncPipe.Pipe.fresh [[0, 0, 0, 0], [0, 0, 0, 1, 7]] .closed true)).mets.take 2 = [2, 2] ∧
+    (SyncPipe.frameEnds 0 [[], [7]]).map (SyncPipe.needed [[0, 0, 0, 0], [0, 0, 0, 1, 7]]) = [1, 2] ∧
+    -- on a pipe that answers empty reads at once the old reader was right
+    (SyncPipe.readAll false 8 3 (SyncPipe.Pipe.fresh [[0, 0, 0, 0], [0, 0, 0, 1, 7]] .closed false)).mets.take 2 = [1, 2] := by
+  decide
 
 /-- **Progress at a stall**: when the peer stalls `k` bytes into the frame of `m`
 (`0 ≤ k < 4 + |m|`; `k = 0`: between messages), the time-out carries exactly the bytes of
